@@ -1,0 +1,177 @@
+/*
+    Verification hooks (runtime monitoring). Everything in this file and every use of its macros is
+    compiled out unless ONETBB_VERIF is defined to a non-zero value.
+
+    A hook is either a *point* (a named place between two steps of a protocol; the monitor may count it,
+    log it and delay the calling thread there - it must not do anything else) or a *report* (a read-only
+    snapshot of internal state handed to an invariant checker, taken under the lock the code itself holds).
+    Both are weak symbols: they are called only if the program that loads the library defines them.
+*/
+
+#ifndef __TBB_detail__verif_hooks_H
+#define __TBB_detail__verif_hooks_H
+
+#if ONETBB_VERIF
+
+extern "C" {
+__attribute__((weak, visibility("default"))) void onetbb_verif_point(int id, const void* obj, long arg);
+__attribute__((weak, visibility("default"))) void onetbb_verif_report(int id, const void* obj, const long* v, int n);
+}
+
+// Identifiers of hook points. Values are stable: append, never renumber.
+enum onetbb_verif_id {
+    // --- ready deque (arena_slot) ---
+    vp_deque_owner_tail_dec      = 1,   // owner: after --tail, before reading head
+    vp_deque_owner_arbitration   = 2,   // owner: pool locked, outcome in arg (0 thief won, 1 single task, 2 more tasks)
+    vp_deque_thief_head_inc      = 3,   // thief: after ++head, before reading tail
+    vp_deque_thief_backoff       = 4,   // thief: steal failed, head rolled back
+    vp_deque_thief_locked        = 5,   // thief: victim pool locked
+    vp_deque_owner_locked        = 6,   // owner: own pool locked (acquire_task_pool)
+    vp_deque_relocate            = 7,   // owner: relocation/grow under the lock
+    vp_deque_commit_spawned      = 8,   // owner: before the release store of tail
+    vp_deque_publish             = 9,   // owner: before publishing the pool
+    vp_deque_thief_took          = 10,  // thief: task taken (arg 1 if tasks were omitted)
+    // --- mailbox / proxies ---
+    vp_proxy_extract             = 20,  // arg: which side (pool=1 / mailbox=2) * 10 + outcome (1 got task, 0 lost)
+    vp_mailbox_push_linked       = 21,  // between my_last.exchange and the link store
+    vp_mailbox_pop               = 22,  // internal_pop, arg: 0 empty, 1 one-item path, 2 normal
+    // --- task streams / dispatch ---
+    vp_stream_push               = 30,
+    vp_stream_pop                = 31,  // arg: 1 got a task
+    vp_dispatch_idle             = 32,  // one iteration of the idle (stealing) loop
+    // --- wait tree ---
+    vp_wait_ctx_zero             = 40,  // wait_context reference count reached zero, before notify
+    vp_ref_vertex_release        = 41,  // reference_vertex release, arg: resulting count
+    vp_ref_vertex_reserve        = 42,  // reference_vertex reserve, arg: previous count
+    vp_fold_tree_dec             = 43,  // fold_tree decrement, arg: remaining
+    // --- sleeping / waking ---
+    vp_mon_prepare_wait          = 50,  // entry of prepare_wait
+    vp_mon_in_waitset            = 51,  // node added to the wait set (before the predicate re-check)
+    vp_mon_commit_wait           = 52,  // before node.wait() in commit_wait
+    vp_mon_cancel_wait           = 53,
+    vp_mon_notify_enter          = 54,  // notifier: after the fence, before the empty() test; arg: 1 if waitset empty
+    vp_mon_notify_dequeued       = 55,  // notifier: after nodes were dequeued, before they are signalled; arg: count
+    vp_sleep_enter               = 56,  // about to block in the kernel (semaphore P / futex wait); obj: monitor/sem
+    vp_sleep_leave               = 57,  // returned from the kernel
+    vp_arena_advertise           = 58,  // advertise_new_work after the fence; arg: work type
+    vp_arena_pool_state_busy     = 59,  // inside the atomic_flag busy window of out_of_work / try_clear
+    vp_arena_out_of_work         = 60,  // out_of_work outcome in arg
+    vp_worker_sleep              = 61,  // private_server worker about to sleep
+    vp_worker_wake               = 62,  // private_server worker woken / wake_some; arg: count
+    vp_addr_wait                 = 63,  // address_waiter wait entry
+    vp_addr_notify               = 64,  // address_waiter notify, arg: kind
+    vp_cbq_wait                  = 65,  // bounded queue: about to wait (arg 0 pop / 1 push)
+    vp_cbq_notify                = 66,  // bounded queue: notify (arg 0 items / 1 slots)
+    vp_cbq_abort                 = 67,
+    // --- arena entry ---
+    vp_arena_occupy_slot         = 70,  // arg: slot index or -1
+    vp_arena_release_slot        = 71,
+    vp_arena_execute_delegate    = 72,  // execute had no slot: delegated task enqueued, before prepare_wait
+    vp_arena_execute_wait        = 73,  // between prepare_wait and commit_wait in execute
+    vp_arena_enqueue             = 74,
+    // --- resumable tasks ---
+    vp_resume_notify             = 80,  // before try_notify_resume / resume()
+    vp_resume_finalize           = 81,  // start of the post-resume action, arg: action kind
+    vp_resume_outcome            = 82,  // arg: 0 normal path (found suspended), 1 early resume (found notified)
+    vp_suspend_enter             = 83,
+    // --- cancellation ---
+    vp_ctx_bind_speculative      = 90,  // binder: after the speculative copy, before registration
+    vp_ctx_bind_registered       = 91,  // binder: after registration; arg: 1 slow (locked) path taken
+    vp_ctx_propagate_begin       = 92,  // propagator: under the lock(s), before the epoch bump
+    vp_ctx_propagate_list        = 93,  // propagator: between per-thread lists
+    vp_ctx_propagate_sync        = 94,  // propagator: before the list-epoch sync
+    vp_ctx_cancel_enter          = 95,  // canceller: after the exchange, before reading may_have_children; arg: 1 if skipped
+    // --- resource management ---
+    vr_market_allotment          = 100, // report: [limit, total_demand, n, (min,max,allotted,priority)*n]
+    vr_serializer_update         = 101, // report: [delta, soft_limit, total_request, pending_delta]
+    vp_serializer_pending        = 102,
+    // --- pipeline ---
+    vp_pipe_token_parked         = 110, // arg: distance from low_token
+    vp_pipe_grow                 = 111, // arg: new size
+    vp_pipe_try_spawn_next       = 112,
+    vp_pipe_token_release        = 113,
+    // --- mutexes ---
+    vp_qm_enqueued               = 120, // queuing_mutex: after the tail exchange; obj: mutex, arg: scoped_lock address
+    vp_qm_release                = 121,
+    vp_qrw_enqueued              = 122, // queuing_rw_mutex: after the tail exchange; arg: (node address)
+    vp_qrw_step                  = 123, // queuing_rw_mutex: protocol step, arg: step id
+    vp_srw_step                  = 124, // spin_rw_mutex: arg step id (1 upgrade window, 2 writer pending set, 3 downgrade)
+    vp_rwm_step                  = 125, // rw_mutex / mutex: before sleeping, arg kind
+    // --- queues ---
+    vp_cq_ticket_taken           = 130, // push ticket taken, item not yet written
+    vp_cq_page_switch            = 131, // under page_mutex
+    vp_cq_pop_wait_item          = 132, // pop waits for the item of its ticket to be written
+    vp_cq_pop_ticket             = 133, // pop ticket taken
+    // --- hash map ---
+    vp_chm_rehash_bucket         = 140,
+    vp_chm_mask_race             = 141, // arg: 1 restarted
+    vp_chm_bucket_upgrade        = 142, // arg: 1 retry needed
+    vp_chm_elem_lock_backoff     = 143,
+    vp_chm_enable_segment        = 144,
+    vp_chm_erase_unlinked        = 145, // between unlink and the element lock
+    // --- vector ---
+    vp_cv_range_claimed          = 150, // range claimed, before allocation/construction
+    vp_cv_first_block            = 151, // first block election, arg: 1 winner
+    vp_cv_wait_segment           = 152, // waiting for another thread's segment
+    vp_cv_table_switch           = 153, // embedded -> long table
+    // --- unordered / skip list ---
+    vp_cu_before_cas             = 160,
+    vp_cu_cas_failed             = 161,
+    vp_cu_init_bucket            = 162,
+    vp_cu_table_double           = 163,
+    vp_sl_level0_cas             = 164,
+    vp_sl_upper_link             = 165, // arg: level
+    vp_sl_cas_failed             = 166,
+    // --- aggregator, priority queue ---
+    vp_agg_op_pushed             = 170, // arg: 1 if this thread becomes the handler
+    vp_agg_before_grab           = 171, // handler about to grab the pending list
+    vr_agg_batch                 = 172, // report: [batch size]
+    // --- flow graph ---
+    vp_fg_succ_rejected          = 180, // successor rejected -> edge flips to pull
+    vp_fg_pred_pull              = 181,
+    vp_fg_forwarder              = 182,
+    vp_fg_limiter_forward        = 183,
+    vp_fg_limiter_decrement      = 184,
+    vp_fg_join_reserve_fail      = 185,
+    vp_fg_buffer_grow            = 186,
+    vp_fg_wait_release           = 187,
+    // --- once / ETS ---
+    vp_once_winner_cas           = 190, // arg: 1 won
+    vp_once_helper_ref           = 191, // helper between ref+1 and the lifetime guard
+    vp_once_wait_completion      = 192,
+    vp_ets_root_cas              = 193,
+    vp_ets_slot_claim            = 194,
+    vp_ets_found_older           = 195,
+    // --- algorithms ---
+    vp_part_offer_work           = 200,
+    vp_part_being_stolen         = 201,
+    vp_part_demand_split         = 202,
+    vp_reduce_split_body         = 203,
+    vp_reduce_join               = 204,
+    vp_scan_pass                 = 205, // arg: 0 pre-pass, 1 final
+    // --- tbbmalloc ---
+    vp_tm_public_free_push       = 210,
+    vp_tm_privatize              = 211,
+    vp_tm_orphan_put             = 212,
+    vp_tm_orphan_get             = 213,
+    vp_tm_bin_mailbox            = 214,
+    vp_tm_coalesce               = 215,
+    vp_tm_loc_put                = 216,
+    vp_tm_loc_get                = 217,
+    vp_id_max                    = 256
+};
+
+#define __TBB_VERIF_POINT(id, obj, arg) \
+    do { if (onetbb_verif_point) onetbb_verif_point((id), static_cast<const void*>(obj), static_cast<long>(arg)); } while (0)
+#define __TBB_VERIF_REPORT(id, obj, v, n) \
+    do { if (onetbb_verif_report) onetbb_verif_report((id), static_cast<const void*>(obj), (v), (n)); } while (0)
+#define __TBB_VERIF_ENABLED 1
+
+#else  // !ONETBB_VERIF
+
+#define __TBB_VERIF_POINT(id, obj, arg) ((void)0)
+#define __TBB_VERIF_REPORT(id, obj, v, n) ((void)0)
+
+#endif // ONETBB_VERIF
+
+#endif // __TBB_detail__verif_hooks_H
